@@ -2,6 +2,8 @@
 
 #[macro_use]
 pub mod kit;
+pub mod model;
+pub mod spec;
 pub mod props;
 
 use kit::report::{Report, Tier, Violation};
